@@ -30,7 +30,7 @@ def gen_case(r, local_only):
 def gen_case_(r, local_only):
     ops = []
     nf = 0 if local_only else r.below(7)
-    faults = [r.choice(["n", "n", "n", "f", "e", "4"]) for _ in range(nf)]
+    faults = [r.choice(["n", "n", "n", "f", "e", "4", "m"]) for _ in range(nf)]
 
     def mm():
         m = r.choice(["A", "A", "B"])
@@ -176,6 +176,9 @@ def run_inprocess(out, pid, n, harness, findings, local_only=False):
         d = dg(BIG)
         for faults in ("e", "n,e", "n,n,e", "f", "n,f", "n,n,f", "4", "n,4"):
             lines.insert(0, "case\t%s\tc:A:w:write:%s:%s\tc:A:w:load:%s\tc:A:l:load:%s\tc:B:w:load:%s" % (faults, d, vlib.hx(BIG), d, d, d))
+        # ... and read back on machine B through the wrapper while the remote body fails mid-stream (then again, then locally)
+        for faults in ("n,n,m", "n,n,m,m", "n,n,n,m"):
+            lines.insert(0, "case\t%s\tc:A:w:write:%s:%s\tc:B:w:load:%s\tc:B:w:load:%s\tc:B:l:load:%s" % (faults, d, vlib.hx(BIG), d, d, d))
     hout, mout = run_cases(lines, harness, drv)
     stats = {"sequences": n, "ops": 0, "distinct": 0, "mismatching_sequences": 0, "oracle_failures": 0, "known": 0,
              "remote_calls": 0, "faulted_calls": 0, "samples": []}
@@ -189,7 +192,7 @@ def run_inprocess(out, pid, n, harness, findings, local_only=False):
         stats["ops"] += len(hf)
         ncalls = len([c for c in calls.split(";") if c])
         stats["remote_calls"] += ncalls
-        stats["faulted_calls"] += len([c for c in calls.split(";") if c and c.split(" ")[-1] in ("f", "e", "4")])
+        stats["faulted_calls"] += len([c for c in calls.split(";") if c and c.split(" ")[-1] in ("f", "e", "4", "m")])
         if local_only or ncalls:
             distinct.add(line)
         viol, known = oracles(line, hf, findings, pid)
